@@ -127,3 +127,20 @@ func init() {
 	checks["C06"] = checkC06
 	replayers["C06"] = replaySemCase(&SemOpts{})
 }
+
+func checkC11(c *Ctx) {
+	o := &SemOpts{}
+	cfg := "FamArrays_quick.cfg"
+	if c.Tier == "thorough" {
+		cfg = "FamArrays_thorough.cfg"
+	}
+	c.runSemFamily("FamArrays", cfg, o, 60*time.Minute)
+	c.cov("exhaustive", true)
+	c.cov("rule", "FamArrays: every history of <= HistLen well-indexed array operations on two variables with shared ancestry (new, alias, nest, write first/last, len in arithmetic, push 1/2 values into either variable, remove first/last into either variable, write through a parameter, read), each optionally followed by one bad-index operation (out of range, negative, fractional, string, nil, boolean, huge, array as index, non-array targets), plus NRandom seeded random histories of RandLen operations; both variables are printed after every step")
+	semAssumptions(c)
+}
+
+func init() {
+	checks["C11"] = checkC11
+	replayers["C11"] = replaySemCase(&SemOpts{})
+}
